@@ -43,13 +43,50 @@ def handleSexExt (op : String) (inp : Json) (impl : Option Json) : R (Option Jso
       match used.find? (fun (_, tb', _) => tb' == tb) with
       | some (_, _, some s) => s
       | _ => 0
-    let cta := compareToAuto G auto
-    let sx := compareChromOf cta shiftVals xs (xShifts hapX).1 (xShifts hapX).2
-    let sy := if ys.isEmpty then none else some (compareChromOf cta shiftVals ys yShifts.1 yShifts.2)
+    -- tables with a weight column: the five location estimates are what the real `descriptives.weighted_median`
+    -- returned (parameters, like scipy's statistics; their staying within the data's range is C19's theorem)
+    let est? := optFld inp "est"
+    let estOf (k : String) : R (Option Rat) := match est? with
+      | some e => (match optFld e k with
+        | some j => getOptRat j
+        | none => pure none)
+      | none => pure none
+    let eA ← estOf "A"
+    let eXF ← estOf "XF"
+    let eXM ← estOf "XM"
+    let eYF ← estOf "YF"
+    let eYM ← estOf "YM"
+    let weighted := est?.isSome
+    let A := eA.getD (medianR auto)
+    let cmp (vals : List Rat) (sh : Rat) (loc : Option Rat) : AutoCmp :=
+      let c := compareToAuto G auto (shiftVals vals sh)
+      if weighted then { c with diff := absR (A - loc.getD 0) } else c
+    let sx := compareChrom (cmp xs (xShifts hapX).1 eXF) (cmp xs (xShifts hapX).2 eXM)
+    let sy := if ys.isEmpty then none else some (compareChrom (cmp ys yShifts.1 eYF) (cmp ys yShifts.2 eYM))
     let score := sexScore sx sy
-    let isM := sexIsMale G hapX auto xs ys
-    let hyp := withinMargin hapX female a d auto xs ys
+    let isM := decide (score > 1)
+    let rowsWithin := withinMargin hapX female a d auto xs ys
+    let eX : Rat := (if female then 0 else -1) + (if hapX then 1 else 0)
+    -- the estimates are doubles computed from `vals + shift` in floating point: the theorem is applied with the
+    -- radius widened by 1e-12 (it holds for every radius below 1/4)
+    let dE : Rat := d + 1 / 1000000000000
+    let near (v : Option Rat) (lvl : Rat) : Bool := match v with
+      | some q => decide (absR (q - lvl) ≤ dE)
+      | none => false
+    -- hypotheses of `sex_inferred_within_margin_any_estimator`, on the supplied estimates
+    let hypEst := decide (0 ≤ d) && decide (4 * dE < 1) && near eA a &&
+      near eXF (a + eX + (xShifts hapX).1) && near eXM (a + eX + (xShifts hapX).2) &&
+      (ys.isEmpty || (match eYF, eYM with
+        | some yf, some ym =>
+          if female then decide (absR (yf - (ym + 3)) ≤ dE) && decide (ym ≤ a - 2)
+          else decide (absR (yf - (a + 3)) ≤ dE) && decide (absR (ym - a) ≤ dE)
+        | _, _ => false))
+    let hyp := if weighted then hypEst else rowsWithin
     let alldeg := allDegenerate hapX auto xs ys
+    let fbMale := if weighted
+      then sexIsMaleOfEstimates A (eXF.getD 0) (eXM.getD 0)
+             (if ys.isEmpty then none else some (eYF.getD 0, eYM.getD 0))
+      else sexIsMaleFallback hapX auto xs ys
     let spec ← (match impl with
       | none => pure Json.null
       | some ij => do
@@ -61,7 +98,7 @@ def handleSexExt (op : String) (inp : Json) (impl : Option Json) : R (Option Jso
                     ).map strJ)))
     pure (some (obj [("out", obj [("is_male", boolJ isM), ("chrx_male_lr", ratJ sx), ("score", ratJ score),
                                    ("hyp", boolJ hyp), ("all_degenerate", boolJ alldeg),
-                                   ("fallback_is_male", boolJ (sexIsMaleFallback hapX auto xs ys)),
+                                   ("fallback_is_male", boolJ fbMale), ("rows_within", boolJ rowsWithin),
                                    ("tables", arrJ (used.map fun (_, tb, _) => moodJ tb)),
                                    ("deg_mismatch", arrJ degMismatch)]),
                      ("slack", ratJ (absR (score - 1))), ("spec", spec)]))
